@@ -11,7 +11,7 @@ CLAIMED = {
                 "block budget vs SAMv1 §4.1 (rustc const-eval), staging-buffer ownership and min() bound, checked BSIZE/ISIZE "
                 "conversions, finalisation must-pass-through (flush, write_frame, EOF marker in finish/try_finish/Drop), and "
                 "reader integrity guards (CRC32, ISIZE, header, frame size), and the direct-read fast path leaving the block consumed (last-writer rule). Not the payload round trip itself.",
-        "note": "trusts zlib-rs deflate/inflate and std write_all/read_exact; decides shape, not values; R9 async poll_flush hands the split block to the sink before any Pending return",
+        "note": "trusts zlib-rs deflate/inflate and std write_all/read_exact; decides shape, not values; R9 async poll_flush hands the split block to the sink before any Pending return; round 8: R10 raw write sites of the BGZF writers are delegations or advance loops (seed: EOF marker with one poll_write)",
         "technique": "static analysis: MIR must-pass-through + guard dominance + who-may-write + const relations (rustc_private driver)",
         "design_ref": "§5 C01",
     },
@@ -25,7 +25,7 @@ CLAIMED.update({
                 "guard of the read-N-or-EOF helpers (incl. cursor accumulation), LF/CR stripping of the line readers, CR of a CRLF split across two windows, copy-before-consume "
                 "in every copying scanner. Necessary conditions only: content "
                 "equality under every chunking is not decided.",
-        "note": "trusts std/tokio read_exact/read_until/BufReader contracts; known finding F6 (noodles-util autodetection) listed by exact key; genuine defect F16 (async FASTA CRLF across windows) found by R6 and repaired (fix: 981b297); R9 keeps the latent CrcReader slip (digests the whole filled part) unreachable; genuine defect F33 (FASTQ name keeps the CR across a refill) found after teaching R6's matcher memchr3, repaired (fix: 750caf3); genuine defect F47 (Interrupted through the text readers' fill_buf loops, 15 sites) repaired (fix: d617af0; R11)",
+        "note": "trusts std/tokio read_exact/read_until/BufReader contracts; known finding F6 (noodles-util autodetection) listed by exact key; genuine defect F16 (async FASTA CRLF across windows) found by R6 and repaired (fix: 981b297); R9 keeps the latent CrcReader slip (digests the whole filled part) unreachable; genuine defect F33 (FASTQ name keeps the CR across a refill) found after teaching R6's matcher memchr3, repaired (fix: 750caf3); genuine defect F47 (Interrupted through the text readers' fill_buf loops, 15 sites) repaired (fix: d617af0; R11); round 8: R12 header sub-reader state agreement; the discard_to_end remainder of F47 repaired (fix: a2c696e), R11 now without exemption",
         "technique": "static analysis: call-site classification by natural loops, enclosing trait method and forward data flow of the returned slice (MIR)",
         "design_ref": "§5 C12",
     },
@@ -35,7 +35,7 @@ CLAIMED.update({
                 "advance loop; finish/try_finish/shutdown/Drop of every writer pass the flush of staged data and the format terminator; "
                 "MT writer joins and propagates; no raw sink flush/write inside a staging write(); a writer created and dropped inside one function is flushed/finished on every Ok path (an escaping Interrupted makes write_all duplicate data). "
                 "Necessary conditions: an error can only be hidden through one of these shapes.",
-        "note": "trusts write_all semantics; known finding F10 (bam alignment Write::finish no-op) listed by exact key; genuine defect F23 (six index fs::write helpers returned Ok without flushing) found through R6 and repaired (fix: 0ef2a68); genuine defect F36 (async BGZF shutdown order) repaired (fix: f30bfbd; R3 rewritten as an ordering rule); R7 local BufWriter flushed",
+        "note": "trusts write_all semantics; known finding F10 (bam alignment Write::finish no-op) listed by exact key; genuine defect F23 (six index fs::write helpers returned Ok without flushing) found through R6 and repaired (fix: 0ef2a68); genuine defect F36 (async BGZF shutdown order) repaired (fix: f30bfbd; R3 rewritten as an ordering rule); R7 local BufWriter flushed; round 7: genuine defect F50 (SAM finish no-op behind builder buffers) repaired (fix: 659a733); the NOOP_OK exemption table is empty",
         "technique": "static analysis: def-use discard detection, Err-edge reachability, must-pass-through with wrapper summaries (MIR)",
         "design_ref": "§5 C14",
     },
@@ -49,7 +49,7 @@ CLAIMED.update({
                 "writers of every position field, the paired-guard constant of the direct-read fast path, every emitted frame advancing the writer position by its size, "
                 "and every stamped block moving the reader's running position past it (all four reader variants). The reference-model "
                 "equality over histories and gzi boundary arithmetic are not decided.",
-        "note": "trusts inner Seek::seek; two genuine defects found by these rules were repaired (fix: commits 4ec97ac, 96ce989); genuine defect F29 (async poll_seek answered a repeated request without seeking) repaired (fix: d58c4c8; rule R7); the gzi exact-hit seed (round 4) stays invisible (value-level); genuine defect F42 (async seek: unvalidated offset, position lost at end of stream; it had been excused in R2's caller table) repaired (fix: 788e61a)",
+        "note": "trusts inner Seek::seek; two genuine defects found by these rules were repaired (fix: commits 4ec97ac, 96ce989); genuine defect F29 (async poll_seek answered a repeated request without seeking) repaired (fix: d58c4c8; rule R7); the gzi exact-hit seed (round 4) stays invisible (value-level); genuine defect F42 (async seek: unvalidated offset, position lost at end of stream; it had been excused in R2's caller table) repaired (fix: 788e61a); round 8: R1 clause — both seeks re-stamp the discarded block themselves (seed: tell() after a seek to the end)",
         "technique": "static analysis: must-pass-through typestate, guard dominance, who-may-write/who-may-call tables (MIR)",
         "design_ref": "§5 C02",
     },
@@ -75,7 +75,7 @@ CLAIMED.update({
                 "are discharged automatically, every other unwrap/index/slice/div/shift site is held against a frozen per-function "
                 "baseline that is explicitly not a claim of safety. Decides: no new panic-capable construct in decode-reachable code, "
                 "and the guards that keep lazy views safe. Does not decide loops, stack or allocation, nor the baseline sites themselves.",
-        "note": "baseline sites are undecided (evidence counts them); 23 known-finding keys (F5, F15) by exact key and multiplicity; seven read-side panics repaired (fix: 5f315e7, 393a12a, 205b072, 474c4ae, e6f4867, 3c0880c, 0fe9510); genuine defect F30 (line readers stripped a CR of an earlier field: accessor panic on a record returned Ok) repaired (fix: bcc5e0d; rule P); rule L: fill_buf loops end at EOF; genuine defect F34 (unfused lazy field iterators) repaired (fix: 696297b; rule F); F41 (hostile CRAM mate distance panicked; fix: e24db8a; guard rule G)",
+        "note": "baseline sites are undecided (evidence counts them); 23 known-finding keys (F5, F15) by exact key and multiplicity; seven read-side panics repaired (fix: 5f315e7, 393a12a, 205b072, 474c4ae, e6f4867, 3c0880c, 0fe9510); genuine defect F30 (line readers stripped a CR of an earlier field: accessor panic on a record returned Ok) repaired (fix: bcc5e0d; rule P); rule L: fill_buf loops end at EOF; genuine defect F34 (unfused lazy field iterators) repaired (fix: 696297b; rule F); F41 (hostile CRAM mate distance panicked; fix: e24db8a; guard rule G); round 7: genuine defects F51 (CG of any subtype; fix: 1b80ca6; rule C), F52 (capacity from a 64-bit count; fix: f751d59; rule A), F53 (GFF attributes iterator; fix: 2f35186; rule F generalised), F54 (character count as byte offset, three sites; fixes: c6a6d13, 88b7da5, b866943; rule U) repaired",
         "technique": "static analysis: whole-workspace call graph with class-hierarchy expansion, panic-construct inventory on MIR, constant-folding discharge, ratchet against reviewed tables",
         "design_ref": "§5 C15",
     },
@@ -88,7 +88,7 @@ CLAIMED.update({
                 "a column encoded on write is decoded in every read view (eager, lazy, array iterators: callers of the shared decoder); "
                 "lone '.' escape present; Character values decoded by every reader that extracts a single character; variant span has one provided implementation; every success path of the parser resets each column of a reused "
                 "RecordBuf (samples tabled as not decided); line buffers are reset before each appended line. Value equality over the grammar is not decided.",
-        "note": "trusts the percent-encoding crate; delimiter harvest is by named constants with a floor; genuine defects F17 (per-window UTF-8 validation) and F18 (eager Character not decoded) repaired (fix: ee4ec0f, 1c67b13); two seeded changes of value-level kind are documented misses; R11 element-wise reset of the per-sample rows; genuine defect F46 (FORMAT numbers of VCF 4.5 written but not parsed) repaired (fix: ecfda04; R13); R12 decode after split",
+        "note": "trusts the percent-encoding crate; delimiter harvest is by named constants with a floor; genuine defects F17 (per-window UTF-8 validation) and F18 (eager Character not decoded) repaired (fix: ee4ec0f, 1c67b13); two seeded changes of value-level kind are documented misses; R11 element-wise reset of the per-sample rows; genuine defect F46 (FORMAT numbers of VCF 4.5 written but not parsed) repaired (fix: ecfda04; R13); R12 decode after split; round 8: R14 stateful closing-quote scan of the header string parser; genuine defect F55 (header writer dropped IDX) repaired (fix: 3212899; rule R15 field coverage)",
         "technique": "static analysis: evaluated AsciiSet constants vs spec table, HIR match-pattern sets, caller sets of encode/decode helpers, trait impl table",
         "design_ref": "§5 C09",
     },
@@ -97,7 +97,7 @@ CLAIMED.update({
                 "bounded copy min(remaining, window) in the limited sequence reader, indexer's consistency comparisons reach error exits "
                 "and records are emitted only after the last-line test, fill_buf scanners are not window-assuming, FASTQ read_record resets the reused "
                 "record with a field-complete clear(), append-buffer discipline of all FASTA/FASTQ readers, CR handling of the sequence scanners independent of the fill_buf window. Offset arithmetic is not decided.",
-        "note": "one genuine defect found by R1 was repaired (fix: 95ab786); the `%`-operand arithmetic mutant of DESIGN §2 stays invisible",
+        "note": "one genuine defect found by R1 was repaired (fix: 95ab786); the `%`-operand arithmetic mutant of DESIGN §2 stays invisible; round 8: R10 no ordered lookup over the file-ordered fai records",
         "technique": "static analysis: guard dominance, data-flow of min() into extend/consume, must-pass-through (MIR)",
         "design_ref": "§5 C11",
     },
@@ -107,7 +107,7 @@ CLAIMED.update({
                 "the reader accepts after a backslash (match-pattern tables), values always quoted, owned record built from the lazy accessors, "
                 "line buffers reset before every appended line (incl. the blank-line skip loop), BED field scanner copies before it consumes, "
                 "the GTF closing-quote scan knows the escape character, owned GFF comments are built from as_comment, BED read_record_N resets every reused field.",
-        "note": "known findings F7 (seqid encoded, never decoded) and F15 by exact key; genuine defects F27 (93f23c6) and F28 (c4084e9) found by R3/R4 and repaired; equality over arbitrary UTF-8 not decided; R8 no float->int / narrowing `as` casts in the text writers",
+        "note": "known findings F7 (seqid encoded, never decoded) and F15 by exact key; genuine defects F27 (93f23c6) and F28 (c4084e9) found by R3/R4 and repaired; equality over arbitrary UTF-8 not decided; R8 no float->int / narrowing `as` casts in the text writers; round 7: R3 escape-state clause (seed: closing quote by look-behind of one byte)",
         "technique": "static analysis: evaluated AsciiSet constants, HIR match-pattern sets, caller sets of encode/decode helpers",
         "design_ref": "§5 C18",
     },
@@ -120,7 +120,7 @@ CLAIMED.update({
                 "widths/endianness with multiplicity, constants, ErrorKinds, try_from type pairs, casts) must be equal modulo a frozen, "
                 "partly triaged difference table. Decides: no twin was edited alone (dropped validate/intersects/resolve, changed width, "
                 "endianness, magic or conversion), plus the stamp/position pairing of the async BGZF reader. Does not decide equality under every poll schedule, nor order of operations.",
-        "note": "the sync side is pinned by the unit tests; frozen differences are recorded behaviour, not claimed equivalent; a benign one-sided edit that adds a token is reported (documented precision limit); genuine defect F29 repaired (fix: d58c4c8; rules R4 drained value vs Pending, R5 state machine); genuine defect F32 (async CSI writer omitted n_ref; it sat in the frozen difference table) repaired (fix: b31c2e2)",
+        "note": "the sync side is pinned by the unit tests; frozen differences are recorded behaviour, not claimed equivalent; a benign one-sided edit that adds a token is reported (documented precision limit); genuine defect F29 repaired (fix: d58c4c8; rules R4 drained value vs Pending, R5 state machine); genuine defect F32 (async CSI writer omitted n_ref; it sat in the frozen difference table) repaired (fix: b31c2e2); round 7: genuine defects F48 (async CSI loffset; fix: a197616) and F49 (async FASTA read_sequence count; fix: d7fa034; R8) repaired; R7 digesting-wrapper rule shared with C12.R9",
         "technique": "static analysis: Engler-style sibling cross-checking over resolved call regions and MIR token multisets",
         "design_ref": "§5 C16",
     },
@@ -133,7 +133,7 @@ CLAIMED.update({
                 "(CG tag on encode, resolve on decode, lazy view) by must-pass-through, confirmed writers of the raw record buffer with "
                 "validation on both read paths, dec∘enc = id exhaustively for the kind/type/subtype tables, reg2bin geometry constants, and the reused-destination rule: every success path of "
                 "decode() overwrites or clears each RecordBuf column; the length-prefix read loop advances its cursor and returns Ok only on nothing-or-everything. Whole-record equality and value boundaries are not decided.",
-        "note": "interval reasoning is dominance-based; three casts are tabled with reasons; R10 writer scratch buffer cleared before the fill; genuine defect F44 (two CG fields when a lazy record with a long CIGAR is re-written) repaired (fix: b489e11; R3)",
+        "note": "interval reasoning is dominance-based; three casts are tabled with reasons; R10 writer scratch buffer cleared before the fill; genuine defect F44 (two CG fields when a lazy record with a long CIGAR is re-written) repaired (fix: b489e11; R3); round 8: R11 overflow-CIGAR placeholder length = l_seq; genuine defect F58 (lazy Subsequence iterator dropped bases) repaired (fix: 4a87093; rule R12)",
         "technique": "static analysis: interval domain over MIR for casts, must-pass-through, who-may-write, HIR match-table agreement, evaluated constants",
         "design_ref": "§5 C05",
     },
@@ -147,7 +147,7 @@ CLAIMED.update({
                 "explicit panics in the encoder closure vs a triaged table, string-map lookups are error exits, the decoder overwrites every column of "
                 "the reused vcf RecordBuf, the per-type copies of the FORMAT value decoders agree on the guards under which a sample is missing. Record equality and "
                 "per-sample padding are not decided.",
-        "note": "one genuine defect (encoder todo!() on a missing INFO value) was repaired (fix: d137c9d); R9 grow-only dictionary, R10 dictionary numbering order (writer collections vs header text); genuine defect F43 (genotype padding inside the allele loop: mixed ploidy corrupted) repaired (fix: cf547a4; R11); F45 (phasing of a missing allele lost; fix: a1364e4; R12)",
+        "note": "one genuine defect (encoder todo!() on a missing INFO value) was repaired (fix: d137c9d); R9 grow-only dictionary, R10 dictionary numbering order (writer collections vs header text); genuine defect F43 (genotype padding inside the allele loop: mixed ploidy corrupted) repaired (fix: cf547a4; R11); F45 (phasing of a missing allele lost; fix: a1364e4; R12); round 8: R13 implicit phasing visits every allele; genuine defects F56 (scalar from an array-typed lazy INFO reader; fix: 01b4831; R14) and F57 (unchecked i8 allele code; fix: 17eaf3d; R15) repaired",
         "technique": "static analysis: interval domain with dominating guards over MIR, evaluated constants, HIR match-table agreement, panic inventory",
         "design_ref": "§5 C10",
     },
@@ -160,7 +160,7 @@ CLAIMED.update({
                 "container-header readers (sync and async) and the writer's CRC taken from its CrcWriter; dec∘enc = id for all CRAM code tables; "
                 "Encoder->CompressionMethod labelling; the 28 data series and the guard edges that dominate each accessor call agree between "
                 "slice reader and slice writer (guard signatures); AP delta symmetry; append-buffer discipline of the header/token readers. Record equality and codec correctness are not decided.",
-        "note": "trusts flate2 CRC and md5; symmetric read_x/write_x structure is floor-checked; three guard asymmetries are tabled with reasons; known finding F31 (quality-score-array flag set for QUAL * records: noodles' own output unreadable) by exact key (rule R9); genuine defect F35 (fqzcomp block raw size) repaired (fix: 56b15b8; rule R10); genuine defects F38 (unnamed record shifts the names after it; fix: c0147a7; R11) and F39 (version 3.0 declared with fqzcomp / a 3.1 default encoder; fix: c5a1551; R12) repaired; F40 (TLEN sign by file order; fix: 19a8e71; R13) repaired",
+        "note": "trusts flate2 CRC and md5; symmetric read_x/write_x structure is floor-checked; three guard asymmetries are tabled with reasons; known finding F31 (quality-score-array flag set for QUAL * records: noodles' own output unreadable) by exact key (rule R9); genuine defect F35 (fqzcomp block raw size) repaired (fix: 56b15b8; rule R10); genuine defects F38 (unnamed record shifts the names after it; fix: c0147a7; R11) and F39 (version 3.0 declared with fqzcomp / a 3.1 default encoder; fix: c5a1551; R12) repaired; F40 (TLEN sign by file order; fix: 19a8e71; R13) repaired; round 7: R15 memo coherence (seed: stale reference-sequence memo in Slice::records)",
         "technique": "static analysis: evaluated constants, guard dominance, HIR match-table agreement, guard-signature comparison of sibling codecs (MIR edge dominance)",
         "design_ref": "§5 C07",
     },
@@ -173,7 +173,7 @@ CLAIMED.update({
                 "position before and a position after the same record read (def-use); one span definition shared by indexer and filter; "
                 "add_record rejects unsorted input; unmapped queries filter per record (never by a prefix combinator); binned-index min_offset is a minimum over several bins; reg2bin (indexer) and reg2bins (query) agree on the coordinate convention (exactly one `- 1` on start/end before the shifts). The heart of C04 — bin assignment, "
                 "chunk merging and pruning for every layout x region — is coordinate arithmetic and is NOT decided.",
-        "note": "weak claim by design; a genuine completeness defect in the CSI min_offset (found by reading, not by a rule) was repaired (fix: 42bd27d) and R5 pins its necessary condition; R8 decides the unbounded-interval shortcut by a finite presence table (A11), rows with unmodelled constructs are not decided",
+        "note": "weak claim by design; a genuine completeness defect in the CSI min_offset (found by reading, not by a rule) was repaired (fix: 42bd27d) and R5 pins its necessary condition; R8 decides the unbounded-interval shortcut by a finite presence table (A11), rows with unmodelled constructs are not decided; round 8: R10 completeness of the four sync query filter loops (seed: early stop at the first non-intersecting record)",
         "technique": "static analysis: edge dominance of the filter test over record-returning exits, def-use ordering of chunk bounds, trait impl table (MIR/HIR)",
         "design_ref": "§5 C04",
     },
@@ -182,7 +182,7 @@ CLAIMED.update({
                 "readers, read_exact for bodies, CRC/ISIZE/frame-size integrity guards of BGZF and CRAM on every success exit, CRAM Ok(0) only on "
                 "the is_eof edge dominated by the header CRC comparison, index readers without raw read() and with try_from-converted counts, "
                 "no untabled error-to-success conversion, the bgzf block loader returning a nonzero length only for a block it read. Prefix equality of what was yielded is not decided.",
-        "note": "the never-panics clause is C15's inventory; a BGZF file cut at a block boundary reads as a shorter clean stream by format design; genuine defects F25 (eager BCF reader: partial prefix = EOF, previously mis-triaged as safe by this suite) and F26 (bgzf direct read fabricated bytes at EOF) repaired (fix: abb968d, 24c37d2); R7 fill_buf loops have an emptiness-controlled exit (no hang on truncation); R8 no Result consumed as an iterator",
+        "note": "the never-panics clause is C15's inventory; a BGZF file cut at a block boundary reads as a shorter clean stream by format design; genuine defects F25 (eager BCF reader: partial prefix = EOF, previously mis-triaged as safe by this suite) and F26 (bgzf direct read fabricated bytes at EOF) repaired (fix: abb968d, 24c37d2); R7 fill_buf loops have an emptiness-controlled exit (no hang on truncation); R8 no Result consumed as an iterator; round 7: R9 read_exact contract (seed: MT reader read_exact answering Ok for a partly filled buffer)",
         "technique": "static analysis: guard dominance, call-site classification, Err-edge reachability (MIR)",
         "design_ref": "§5 C13",
     },
@@ -195,7 +195,7 @@ CLAIMED.update({
                 "present (path rule over six write_bins bodies), duplicate bins rejected, magic numbers single-sourced, optional trailing count read as "
                 "optional, reg2bin/reg2bins coordinate convention, append-buffer discipline of the text index readers (crai, fai). Binning arithmetic (reg2bin ∈ reg2bins, optimize_chunks) and "
                 "byte layout are NOT decided.",
-        "note": "genuine defect F14 (crai read_index never cleared its line buffer: every multi-entry CRAI unreadable) found by R7 and repaired (fix: f7bcce1); the CSI loffset write transform (read(write(ix)) != ix, findings/repro f4) is query-equivalent after fix 42bd27d and therefore not armed; genuine defect F32 repaired (fix: b31c2e2); R10 no raw read() in index readers",
+        "note": "genuine defect F14 (crai read_index never cleared its line buffer: every multi-entry CRAI unreadable) found by R7 and repaired (fix: f7bcce1); the CSI loffset write transform (read(write(ix)) != ix, findings/repro f4) is query-equivalent after fix 42bd27d and therefore not armed; genuine defect F32 repaired (fix: b31c2e2); R10 no raw read() in index readers; round 7: R11 linear-index window convention (seed: start >> 14 on a 1-based position)",
         "technique": "static analysis: caller sets, evaluated constants, presence/dominance of the pseudo-bin guards (MIR)",
         "design_ref": "§5 C17",
     },
@@ -203,7 +203,7 @@ CLAIMED.update({
         "text": "Narrow claim: CRAM query returns records only behind the reference-id + interval test (sync and async), the container loader "
                 "filters index entries by reference, fs::index dispatches multi-reference slices to per-reference entries and derives the slice "
                 "length from landmarks, crai writer/reader columns, slice span accumulated as (min start, max end). That spans and offsets are true and that query = scan for every layout are NOT decided.",
-        "note": "two genuine defects repaired (fix: 393a12a, 473fa0d); known finding F12a (fs::index decodes multi-reference slices with an empty repository) by exact key",
+        "note": "two genuine defects repaired (fix: 393a12a, 473fa0d); known finding F12a (fs::index decodes multi-reference slices with an empty repository) by exact key; round 8: R7 per-slice accumulator scope (seed: range map hoisted out of the slice loop)",
         "technique": "static analysis: edge dominance of the filter over record-returning exits, dispatch reachability, data flow of the repository argument (MIR)",
         "design_ref": "§5 C19",
     },
@@ -213,7 +213,7 @@ CLAIMED.update({
                 "compressed (HIR match-arm tables, alignment+variant, sync+async); detection window assumption (known finding F6); finish reaches "
                 "every arm and every generic writer has a finishing call dispatching to all arms; default compression; configuration plumbing: every field of every workspace Builder struct is read by a consumer (an option "
                 "stored by a setter cannot be silently ignored). Conversions are NOT decided.",
-        "note": "R2 found a genuine defect (swapped BCF writer arms), repaired (fix: 087a76d); the variant writers (sync and async) had no finishing call at all, repaired (fix: 34fcaac, 5e6a7ff; rule R4/no-finisher); F6 listed by exact keys; R6 VCF->BCF dictionary order (shared with C10.R10)",
+        "note": "R2 found a genuine defect (swapped BCF writer arms), repaired (fix: 087a76d); the variant writers (sync and async) had no finishing call at all, repaired (fix: 34fcaac, 5e6a7ff; rule R4/no-finisher); F6 listed by exact keys; R6 VCF->BCF dictionary order (shared with C10.R10); round 8: R8 dispatch agreement of the noodles-util wrappers (seed: Bam arm forwarding to another accessor)",
         "technique": "static analysis: HIR match-table agreement between sibling builders, evaluated constants, fill_buf window classification",
         "design_ref": "§5 C20",
     },
@@ -227,7 +227,7 @@ CLAIMED.update({
                 "subtypes against all decoders of the family incl. the lazy record's; missing markers; BAM header dictionary check; RNEXT '='; every success "
                 "path of the parser resets each column of a reused RecordBuf; every appended line buffer is reset first (append-buffer discipline). "
                 "Float text, integer widths, fixed-point equality and the header grammar are NOT decided.",
-        "note": "value formatting is unit-test territory; R8 packed sequence bytes are never decoded without the base count",
+        "note": "value formatting is unit-test territory; R8 packed sequence bytes are never decoded without the base count; round 7: R9 no raw write in the SAM text writers (seed: SEQ handed over with one write)",
         "technique": "static analysis: call sequences in reverse post-order, def-use from split/accessor to setter/writer, HIR match-table agreement, evaluated constants",
         "design_ref": "§5 C06",
     },
